@@ -1,9 +1,212 @@
-import Fpdec.Lemmas.Dom
+import Fpdec.Lemmas.WideRound
+import Fpdec.Lemmas.IntTy
 import Fpdec.Props.C02_Sites
 
-/-! # C02 — property theorems (under construction: see DESIGN.md section 6) -/
+/-!
+# C02 — Multiplication is exact up to 18 digits, else correctly rounded
+
+`mul_spec`, `checked_mul_spec`, `mul_int_spec`, `checked_mul_int_spec`: for ALL operands of the domain, all eight thread
+modes and every build profile the model of `*`, `checked_mul` and the integer-operand forms returns what `Spec.mul` /
+`Spec.checkedMul` / `Spec.mulInt` allow: zero / one short cuts, the exact product with `p+q` digits when `p+q ≤ 18`,
+else the exact product rounded once to 18 digits (narrow path `i128_div_rounded` and wide path
+`i256_div_mod_floor` + `round_quot`), overflow signalled exactly when the result coefficient does not fit.
+
+The wide path is proved relative to `WideMul` (the specification of `i256_div_mod_floor`, see C16); `Props/C16.lean`
+discharges it.
+-/
 
 namespace Fpdec.Props.C02
 open Fpdec Fpdec.Model
+
+/-- specification of `i256_div_mod_floor` for a positive divisor (proved in `Lemmas/Wide.lean`, C16) -/
+def WideMul : Prop :=
+  ∀ (prof : Profile) (x1 x2 y : Int), (I128_MIN < x1 ∧ x1 ≤ I128_MAX) → (I128_MIN < x2 ∧ x2 ≤ I128_MAX) →
+    (0 < y ∧ y ≤ I128_MAX) →
+    i256DivModFloor prof x1 x2 y =
+      .ok (if ((x1 * x2).natAbs / y.natAbs : Nat) ≤ I128_MAX.toNat then some ((x1 * x2) / y, (x1 * x2) % y) else none)
+
+theorem eqOne_eq (d : Dec) (h : d.nfrac ≤ 18) : eqOne d = .ok (decide (d.coeff = (10 : Int) ^ d.nfrac)) := by
+  unfold eqOne
+  rw [tenPow_ok _ (by omega)]
+  rfl
+
+theorem isOne_eq (c : Int) (p : Nat) : Spec.isOne c p = decide (c = (10 : Int) ^ p) := rfl
+
+/-- the rounding core shared by `*` and `mul_rounded` -/
+def specMulCore (tm : Mode) (a : Int) (p : Nat) (b : Int) (q : Nat) (n : Nat) : Spec.Exp :=
+  if n ≥ p + q then Spec.valFitSharp (a * b) (p + q)
+  else Spec.valFit (Spec.specRound tm (a * b) ((10 : Int) ^ (p + q - n))) n
+
+theorem pow10_le_max' {k : Nat} (h : k ≤ 38) : (10 : Int) ^ k ≤ I128_MAX := by
+  have h38 : (10 : Int) ^ 38 ≤ I128_MAX := by decide
+  have : (10 : Int) ^ k ≤ (10 : Int) ^ 38 := pow10_mono h
+  omega
+
+/-- `checked_mul_rounded(x, y, n)` for `n ≤ 18` -/
+theorem checkedMulRounded_spec (hw : WideMul) (prof : Profile) (tm : Mode) (x y : Dec) (n : Nat)
+    (hx : Dom x) (hy : Dom y) (hn : n ≤ 18) :
+    Spec.allowedChecked (specMulCore tm x.coeff x.nfrac y.coeff y.nfrac n)
+      (outOptPair (checkedMulRounded prof tm x y n)) = true := by
+  obtain ⟨a, p⟩ := x
+  obtain ⟨b, q⟩ := y
+  obtain ⟨ha0, ha1, hp⟩ := hx
+  obtain ⟨hb0, hb1, hq⟩ := hy
+  simp only at ha0 ha1 hp hb0 hb1 hq
+  unfold checkedMulRounded specMulCore
+  simp only []
+  rw [plainU8_ok prof (x := (p : Int) + (q : Int)) (by omega) (by omega)]
+  have hpq : ((p : Int) + (q : Int)).toNat = p + q := by omega
+  simp only [Outcome.bind_ok, hpq]
+  by_cases h1 : n ≥ p + q
+  · simp only [h1, if_true]
+    unfold Spec.valFitSharp
+    rw [spec_fits_eq]
+    cases hh : fitsI128 (a * b)
+    · simp [checkedI128_none hh, Spec.allowedChecked]
+    · simp [checkedI128_some hh, Spec.allowedChecked]
+  · simp only [h1, if_false]
+    have hsh : p + q - n ≤ 38 := by omega
+    have hpw := pow10_pos (p + q - n)
+    have hpl := pow10_le_max' hsh
+    cases hh : fitsI128 (a * b)
+    · -- wide path
+      rw [checkedI128_none hh]
+      simp only []
+      unfold i128MulDivTenPowRounded
+      rw [tenPow_ok _ hsh]
+      simp only [Outcome.bind_ok]
+      rw [hw prof a b ((10 : Int) ^ (p + q - n)) ⟨ha0, ha1⟩ ⟨hb0, hb1⟩ ⟨hpw, hpl⟩]
+      simp only [Outcome.bind_ok]
+      have key := wide_tail tm (a * b) ((10 : Int) ^ (p + q - n)) n hpw hpl
+      by_cases ht : ((a * b).natAbs / ((10 : Int) ^ (p + q - n)).natAbs : Nat) ≤ I128_MAX.toNat
+      · simp only [ht, if_true, Option.bind_some] at key ⊢
+        cases hr : roundQuot tm (a * b / 10 ^ (p + q - n)) (IntTy.u128.cast (a * b % 10 ^ (p + q - n))).toNat
+            (IntTy.u128.cast (10 ^ (p + q - n))).toNat none with
+        | none => rw [hr] at key; simpa using key
+        | some c => rw [hr] at key; simpa using key
+      · simp only [ht, if_false, Option.bind_none] at key ⊢
+        simpa using key
+    · -- narrow path
+      rw [checkedI128_some hh]
+      simp only []
+      rw [tenPow_ok _ hsh]
+      simp only [Outcome.bind_ok]
+      rw [i128DivRounded_pos prof tm none (a * b) ((10 : Int) ^ (p + q - n)) hh hpw hpl]
+      simp only [Outcome.bind_ok, Option.getD_none]
+      have hf := specRound_fits tm (a * b) ((10 : Int) ^ (p + q - n)) ((fitsI128_iff _).mp hh) hpw
+      exact valFit_some _ _ hf
+
+theorem valFitSharp_shape (c : Int) (p : Nat) :
+    Spec.valFitSharp c p ≠ .divzero ∧ Spec.valFitSharp c p ≠ .none ∧ Spec.valFitSharp c p ≠ .nfrac := by
+  unfold Spec.valFitSharp
+  cases Spec.fits c <;> simp
+
+theorem specMulCore_shape (tm : Mode) (a : Int) (p : Nat) (b : Int) (q n : Nat) :
+    specMulCore tm a p b q n ≠ .divzero ∧ specMulCore tm a p b q n ≠ .none ∧ specMulCore tm a p b q n ≠ .nfrac := by
+  unfold specMulCore
+  split
+  · exact valFitSharp_shape _ _
+  · exact valFit_shape _ _
+
+/-- `x * y` (all reference forms and `*=` forward to this body) -/
+theorem mul_spec (hw : WideMul) (prof : Profile) (tm : Mode) (x y : Dec) (hx : Dom x) (hy : Dom y) :
+    Spec.allowedOp (Spec.mul tm x.coeff x.nfrac y.coeff y.nfrac) (outPair (mul prof tm x y)) = true := by
+  have hcore := checkedMulRounded_spec hw prof tm x y 18 hx hy (by omega)
+  obtain ⟨s1, s2, s3⟩ := specMulCore_shape tm x.coeff x.nfrac y.coeff y.nfrac 18
+  have hop := allowedOp_of_checked _ _ hcore s1 s2 s3
+  obtain ⟨a, p⟩ := x
+  obtain ⟨b, q⟩ := y
+  have hp : p ≤ 18 := hx.2.2
+  have hq : q ≤ 18 := hy.2.2
+  unfold mul Spec.mul
+  simp only [eqZero, max_nfrac]
+  by_cases h0 : a = 0 ∨ b = 0
+  · have : (decide (a = 0) || decide (b = 0)) = true := by simpa using h0
+    simp [h0, this, Spec.allowedOp, Dec.ZERO]
+  · have : (decide (a = 0) || decide (b = 0)) = false := by simpa using h0
+    simp only [h0, this, if_false, Bool.false_eq_true]
+    rw [eqOne_eq ⟨b, q⟩ hq, isOne_eq, isOne_eq]
+    simp only [Outcome.bind_ok]
+    by_cases h1 : b = (10 : Int) ^ q
+    · simp [h1, Spec.allowedOp]
+    · simp only [h1, decide_false, Bool.false_eq_true, if_false]
+      rw [eqOne_eq ⟨a, p⟩ hp]
+      simp only [Outcome.bind_ok]
+      by_cases h2 : a = (10 : Int) ^ p
+      · simp [h2, Spec.allowedOp]
+      · simp only [h2, decide_false, Bool.false_eq_true, if_false]
+        have hspec : (if p + q ≤ 18 then Spec.valFitSharp (a * b) (p + q)
+            else Spec.valFit (Spec.specRound tm (a * b) (10 ^ (p + q - 18))) 18) = specMulCore tm a p b q 18 := by
+          unfold specMulCore
+          by_cases h3 : p + q ≤ 18
+          · have h3' : 18 ≥ p + q := h3
+            simp [h3, h3']
+          · have h3' : ¬ 18 ≥ p + q := h3
+            simp [h3, h3']
+        rw [hspec]
+        cases hcm : checkedMulRounded prof tm ⟨a, p⟩ ⟨b, q⟩ 18 with
+        | panic k => rw [hcm] at hop; simpa [panicOnNone] using hop
+        | ok o =>
+          cases o with
+          | none => rw [hcm] at hop; simpa [panicOnNone] using hop
+          | some r => rw [hcm] at hop; simpa [panicOnNone] using hop
+
+/-- `checked_mul`: exact product or `None`; `None` also for `p + q > 18`; never rounded, never a panic -/
+theorem checked_mul_spec (prof : Profile) (x y : Dec) (hx : Dom x) (hy : Dom y) :
+    Spec.allowedChecked (Spec.checkedMul x.coeff x.nfrac y.coeff y.nfrac) (outOptPair (checkedMul prof x y)) = true := by
+  obtain ⟨a, p⟩ := x
+  obtain ⟨b, q⟩ := y
+  have hp : p ≤ 18 := hx.2.2
+  have hq : q ≤ 18 := hy.2.2
+  unfold checkedMul Spec.checkedMul
+  simp only [eqZero, max_nfrac]
+  by_cases h0 : a = 0 ∨ b = 0
+  · have : (decide (a = 0) || decide (b = 0)) = true := by simpa using h0
+    simp [h0, this, Spec.allowedChecked, Dec.ZERO]
+  · have : (decide (a = 0) || decide (b = 0)) = false := by simpa using h0
+    simp only [h0, this, if_false, Bool.false_eq_true]
+    rw [eqOne_eq ⟨b, q⟩ hq, isOne_eq, isOne_eq]
+    simp only [Outcome.bind_ok]
+    by_cases h1 : b = (10 : Int) ^ q
+    · simp [h1, Spec.allowedChecked]
+    · simp only [h1, decide_false, Bool.false_eq_true, if_false]
+      rw [eqOne_eq ⟨a, p⟩ hp]
+      simp only [Outcome.bind_ok]
+      by_cases h2 : a = (10 : Int) ^ p
+      · simp [h2, Spec.allowedChecked]
+      · simp only [h2, decide_false, Bool.false_eq_true, if_false]
+        rw [plainU8_ok prof (x := (p : Int) + (q : Int)) (by omega) (by omega)]
+        have hpq : ((p : Int) + (q : Int)).toNat = p + q := by omega
+        simp only [Outcome.bind_ok, hpq]
+        by_cases h3 : p + q > 18
+        · simp [h3, Spec.allowedChecked]
+        · simp only [h3, if_false]
+          unfold Spec.valFitSharp
+          rw [spec_fits_eq]
+          cases hh : fitsI128 (a * b)
+          · simp [checkedI128_none hh, Spec.allowedChecked]
+          · simp [checkedI128_some hh, Spec.allowedChecked]
+
+/-- Decimal × integer (either position, 9 integer types): exact, the Decimal's scale, overflow iff it does not fit -/
+theorem mul_int_spec (d : Dec) (i : Int) :
+    Spec.allowedOp (Spec.mulInt d.coeff d.nfrac i) (outPair (mulInt d i)) = true := by
+  unfold mulInt Spec.mulInt Spec.valFitSharp
+  rw [spec_fits_eq]
+  cases hh : fitsI128 (d.coeff * i)
+  · simp [checkedI128_none hh, Spec.allowedOp, Spec.isOvfPanic]
+  · simp [checkedI128_some hh, Spec.allowedOp]
+
+theorem checked_mul_int_spec (d : Dec) (i : Int) :
+    Spec.allowedChecked (Spec.mulInt d.coeff d.nfrac i) (outOptPair (.ok (checkedMulInt d i))) = true := by
+  unfold checkedMulInt Spec.mulInt Spec.valFitSharp
+  rw [spec_fits_eq]
+  cases hh : fitsI128 (d.coeff * i)
+  · simp [checkedI128_none hh, Spec.allowedChecked]
+  · simp [checkedI128_some hh, Spec.allowedChecked]
+
+/-! ### non-vacuity -/
+example : mul Profile.dev .heven ⟨15, 1⟩ ⟨25, 2⟩ = .ok ⟨375, 3⟩ := by decide
+example : mul Profile.release .heven ⟨1000000000000000005, 18⟩ ⟨15, 1⟩ = .ok ⟨1500000000000000008, 18⟩ := by decide
+example : mul Profile.dev .heven Dec.MAX ⟨2, 0⟩ = .panic .overflow ∧ checkedMul Profile.dev ⟨1, 10⟩ ⟨3, 9⟩ = .ok none := by decide
 
 end Fpdec.Props.C02
